@@ -9,7 +9,7 @@ def nt(t):
     k = t[0]
     if k in ("list", "arr", "gen"):
         return [k, nt(t[1])]
-    if k in ("rec", "un"):
+    if k in ("rec", "un", "adt"):
         return [k, t[1]]
     if k == "fn":
         return ["fn", [nt(a) for a in t[1]], nt(t[2])]
@@ -68,6 +68,13 @@ def typed(prog):
     for dm in p["doms"]:
         for o in dm["ops"]:
             o["pts"] = [nt(a) for a in o["pts"]]
+            o["rt"] = nt(o["rt"])
+            walk(o["body"])
+    p.setdefault("adts", [])
+    for a in p["adts"]:
+        a["rep"] = nt(a["rep"])
+        for o in a["ops"]:
+            o["pts"] = [nt(x) for x in o["pts"]]
             o["rt"] = nt(o["rt"])
             walk(o["body"])
     p.setdefault("exns", [])
